@@ -132,12 +132,28 @@ def check_property(prop, gen=()):
     t0 = time.time()
     res = {"ok": False, "obligations": 0, "discharged": 0, "theorems": [], "axioms": [], "broken": [],
            "log": ""}
-    for g in gen:              # translators: regenerate coq/gen/*.v from /repo
-        try:
-            g()
-        except Exception as e:  # fail closed
-            res["broken"].append("translator %s: %s" % (getattr(g, "__name__", g), e))
-            res["log"] = str(e)
+    # translators: regenerate EVERY coq/gen/*.v from the tree under test before anything is compiled (a gen file left
+    # behind by a run against another tree - e.g. a scratch worktree with an edited data file - must never be compiled
+    # into this run).  They rewrite a file only when its content changes.  Fail closed for the property's own
+    # translators (gen) and, below, for any failure when the property's cone contains a generated file.
+    import importlib
+    import pkgutil
+    from .. import translate as _tr
+    failed = {}
+    with lock():
+        for m in sorted(pkgutil.iter_modules(_tr.__path__), key=lambda m: m.name):
+            if m.name.startswith("_"):
+                continue
+            try:
+                mod = importlib.import_module("harness.translate." + m.name)
+                if hasattr(mod, "generate"):
+                    mod.generate()
+            except Exception as e:
+                failed["harness.translate." + m.name] = "%s: %s" % (type(e).__name__, e)
+    for g in gen:
+        if getattr(g, "__module__", None) in failed:
+            res["broken"].append("translator %s: %s" % (g.__module__, failed[g.__module__]))
+            res["log"] = failed[g.__module__]
             return res
     src = os.path.join(env.COQ, "theories", "Props", prop + ".v")
     text = _strip_comments(open(src).read())
@@ -145,6 +161,10 @@ def check_property(prop, gen=()):
     res["obligations"] = len(names)
     files = cone(prop)
     res["cone"] = files
+    if failed and any(os.path.basename(os.path.dirname(f)) == "gen" or "/gen/" in f or f.startswith("gen/") for f in files):
+        res["broken"].append("translator failed: " + "; ".join("%s: %s" % kv for kv in failed.items()))
+        res["log"] = str(failed)
+        return res
     hits = scan_forbidden(files)      # the property is judged on the files its theorems depend on
     if hits:
         res["broken"].append("forbidden construct: " + "; ".join(hits[:5]))
